@@ -8,6 +8,7 @@ import PfVerif.Driver.DType
 import PfVerif.Driver.Fit
 import PfVerif.Driver.Grad
 import PfVerif.Driver.Stoch
+import PfVerif.Driver.BSDual
 namespace PfVerif.Driver
 open Lean
 
@@ -41,6 +42,7 @@ def dispatch (op : String) (j : Json) : R Json :=
   | "fit" => opFit j
   | "grad" => opGrad j
   | "gen" => opGen j
+  | "bs_dual" => opBsDual j
   | _ => .error s!"unknown op {op}"
 
 end PfVerif.Driver
